@@ -46,7 +46,9 @@ def run_main(ctx: Ctx):
                 '(Fractions) for every permutation of the component listing (<=4 comps) or random permutations, insert_components, random '
                 'use_model dicts, requested-output subsets, raw vs normalised inputs; the evaluation order observed through instrumented models '
                 'is checked with the extracted is_topological (Model/Sys.v); trained systems: surrogate prediction versus manual chaining of '
-                'Component.predict; non-trivial = at least one component consumes another component\'s output')
+                'Component.predict; random topologies with several feedback loops and every directed graph on 2-3 (thorough: 4) components: System.graph() edges, the evaluation plan '
+                'System.predict walks and the models called repeatedly versus Model/Graph.v (edges, sccs, plan_ok), values versus the exact coupled solution; a field coupling variable of rank 11-13; '
+                'non-trivial = at least one component consumes another component\'s output')
     lines, meta = [], []
     flines, fmeta = [], []
     for n in range(nsys):
